@@ -111,6 +111,61 @@ func check(c Case) error {
 	if toks[0].Lit != "a" || toks[len(toks)-1].Lit != "b" || toks[1].Tok != token.DEFINE {
 		return fmt.Errorf("surrounding code changed: %q", src)
 	}
+	if c.Kind == "byte" {
+		return nil
+	}
+	// the literal as an item of list constructs, multi-line and comma-separated ones included:
+	// it must stay one token there too
+	want := toks[2]
+	containers := []func(items ...*recipe.Node) *recipe.Node{
+		func(items ...*recipe.Node) *recipe.Node {
+			return recipe.S().C("Custom", &recipe.Opts{Open: "[", Close: "]", Separator: ",", Multi: true}, items)
+		},
+		func(items ...*recipe.Node) *recipe.Node { return recipe.Id("f").C("Call", items) },
+		func(items ...*recipe.Node) *recipe.Node { return recipe.Id("T").C("Values", items) },
+		func(items ...*recipe.Node) *recipe.Node { return recipe.S().C("Block", items) },
+		func(items ...*recipe.Node) *recipe.Node {
+			return recipe.Id("T").C("Values", recipe.Dict(recipe.Pair{K: items[0], V: items[1]}, recipe.Pair{K: recipe.Id("zzzz"), V: items[2]}))
+		},
+	}
+	for ci, mk := range containers {
+		text, err := litx.RenderStmt(mk(lit.Clone(), lit.Clone(), lit.Clone()), nil)
+		if err != nil {
+			return fmt.Errorf("container %d: %v", ci, err)
+		}
+		ts, err := litx.Scan(text)
+		if err != nil {
+			return fmt.Errorf("container %d: %q does not scan: %v", ci, text, err)
+		}
+		n := 0
+		for _, t := range ts {
+			if t.Tok == want.Tok {
+				if t.Lit != want.Lit {
+					return fmt.Errorf("inside a list construct the literal %s appears as %s\n%s", want.Lit, t.Lit, text)
+				}
+				n++
+			} else if t.Tok == token.STRING || t.Tok == token.CHAR {
+				return fmt.Errorf("inside a list construct an unexpected literal token %s appears\n%s", t.Lit, text)
+			}
+		}
+		if n != 3 {
+			return fmt.Errorf("the literal was given three times to a list construct, %d literal tokens came out\n%s", n, text)
+		}
+		// the code tokens around the three literals are those of the same construct holding identifiers
+		plain, _ := litx.RenderStmt(mk(recipe.Id("zz"), recipe.Id("zz"), recipe.Id("zz")), nil)
+		ps, _ := litx.Scan(plain)
+		if len(ps) != len(ts) {
+			return fmt.Errorf("the construct has %d tokens with identifiers and %d with the literal\n%s", len(ps), len(ts), text)
+		}
+		for i := range ps {
+			if ps[i].Lit == "zz" {
+				continue
+			}
+			if ps[i] != ts[i] {
+				return fmt.Errorf("token %d of the construct is %v %q with identifiers and %v %q with the literal\n%s", i, ps[i].Tok, ps[i].Lit, ts[i].Tok, ts[i].Lit, text)
+			}
+		}
+	}
 	return nil
 }
 
